@@ -368,6 +368,9 @@ func runFlow(w *World, rs *RunSpec) {
 		DefaultScripts(c, p)
 		plans = append(plans, p)
 		w.Desc["volume_messages"] = n
+		// each message costs some tens of steps (more with a one-frame carrier
+		// and an adversarial scheduler); 2000 per message is far beyond that
+		simrt.SetMaxSteps(int64(n) * 2000)
 	default:
 		n := 2 + c.Intn(6, "nstreams")
 		if thorough {
